@@ -15,6 +15,16 @@ P = {
          "For every wrapped shape in every argument/return position the grammar admits: the implementor digests what it received and records (address,len) of every reference-like argument, lends borrowed returns from known buffers, writes patterns through &mut / &mut [T]; the caller compares with what it sent, with the direct call's result, with the lent address and with its own buffers; values are biased to the corners (empty, zero-sized elements, non-ASCII, None/Some, Ok/Err, extreme integers, NaN payloads).",
          "digest collisions (64-bit FNV) are ignored",
          "DESIGN.md 4/C02"),
+ "C03": (True, "expander+lint",
+         "systematic enumeration + random generation of definitions; oracle 1: rustc's improper_ctypes lints on expansions written out as source with probe declarations; oracle 2: structural check of the token stream",
+         "All single-method traits over (5 receivers x 23 argument shape classes x up to 20 return shape classes x int_result on/off) = 3.8k definitions plus random multi-method traits and groups are expanded in-process by /repo's cglue_gen used as a library. Every expansion is checked structurally (every vtable entry and wrapper extern \"C\", no slice/str/tuple/Result/non-NPO Option/Rust-ABI fn/std container in a signature, repr on every generated struct); a sample (quick: every 13th + all random; thorough: all) is written into a crate with #![deny(improper_ctypes, improper_ctypes_definitions)] together with extern \"C\" probes over the opaque Box/ArcBox/Mut/Ref/ArcRef object types and over every runtime wrapper type, and compiled; a syn-based audit requires a repr on every public runtime type.",
+         "the installed stable rustc's lints are the yardstick; leaf types are restricted to what that lint accepts (no char), extern \"C\" trait methods only get C-safe user signatures",
+         "DESIGN.md 4/C03"),
+ "C04": (True, "progbatch+expander",
+         "generated programs with raw-word layout oracles + expansion determinism over fresh processes",
+         "In every generated (definition, container) case the concrete object is compared with its opaque form (size, alignment, all bytes preserved by into_opaque) and the static vtable is read as raw words: exactly one pointer per exported method, word i == public getter of the i-th declared method. Generated groups: vtable pointers read from the raw words of the group object must sit at mandatory-by-name then optional-by-name positions (null exactly when not enabled), then the container (instance first, context next, no extra field), and the cast form must have the identical words. Each definition is also expanded in 8 (quick) / 32 (thorough) fresh processes under three expanding crates and the ordered (struct, fields) lists of all repr(C) structs must be identical.",
+         "vtable pointers are obtained through public accessors (get_vtbl, GetVtblBase, cast+upcast), never through field names",
+         "DESIGN.md 4/C04"),
  "C06": (True, "rtprops+progbatch",
          "stateful PBT over object-pool histories of a hand-written trait family + lifecycle oracle on generated programs; drop tokens and tracking allocator",
          "Histories {create object/group, call, owned/borrowed wrapped children, Clone via group, cast+upcast, into(final), consuming calls, drop in generated order} over a three-level family whose every value owns a heap token, plus the generated program batches with the lifecycle oracle: each token dropped exactly once, by-reference containers never drop what they borrow, allocation window balanced with matching layouts.",
@@ -117,7 +127,8 @@ def main():
 
 NA = {}
 ENGINES = [
- {"name": "progbatch", "path": "driver/gen.py, driver/emit.py, driver/batch.py, harness/pbsupport", "serves_properties": ["C01","C02","C06","C07","C13"], "kind_free_text": "grammar-based generator of cglue traits + stateful implementors + differential drivers, compiled per batch against /repo"},
+ {"name": "expander", "path": "harness/expander, driver/gen_c03.py", "serves_properties": ["C03","C04"], "kind_free_text": "runs /repo's cglue_gen in-process as a library: structural oracle, emission of lint crates, struct/field digests for determinism"},
+ {"name": "progbatch", "path": "driver/gen.py, driver/emit.py, driver/batch.py, harness/pbsupport", "serves_properties": ["C01","C02","C04","C06","C07","C13"], "kind_free_text": "grammar-based generator of cglue traits + stateful implementors + differential drivers, compiled per batch against /repo"},
  {"name": "c08cells", "path": "driver/gen_c08.py", "serves_properties": ["C08"], "kind_free_text": "generated crate enumerating the cast matrix"},
  {"name": "c09markers", "path": "driver/gen_c09.py", "serves_properties": ["C09"], "kind_free_text": "generated crate evaluating the Send/Sync matrix"},
  {"name": "verifkit", "path": "harness/verifkit", "serves_properties": [], "kind_free_text": "tracking global allocator, drop tokens, proptest runner with fixed seeds, statistics, replay protocol"},
